@@ -3,6 +3,9 @@
 Generated send histories (all sizes, retry modes, idle gaps, faults, graceful disconnects) long enough to wrap the 16-bit
 datagram counter; every datagram that reaches a mock socket is judged by the harness's own parser / AES-GCM opener.
 """
+import struct
+import zlib
+
 from cryptography.hazmat.primitives.ciphers.aead import AESGCM
 from hypothesis import strategies as st
 
@@ -23,6 +26,7 @@ RULE = ("histories: connected pair, drawn traffic (sizes 0..fragmented, 3 retry 
         "payload >= 12 bytes is visible in its datagram, no 12-byte payload id anywhere on the wire (short histories). "
         "non-trivial = the sender's counter wrapped and a keep-alive and a retransmission occurred; distinct by (wraps, mtu, seed).")
 RULE += (" " + 'Round-5 addition: about a third of the histories end with a key-holding peer that does not run the library sending, properly sealed, one more CLIENT_HELLO message while the server still has a backlog queued (labelled hist-sealed-rehello-with-backlog); the same wire oracle applies (nothing but a hello may leave in clear, a clear hello carries nothing else).')
+RULE += (" " + 'Round-8 addition (part failed): handshakes that never complete (client hello lost, server hello lost / 2.3 s late / signature damaged, disconnect() while connecting) with an application that sends 1-3 messages right after connect() and keeps running its frame loop for 2.6-4 s: the same wire judge (no key was agreed, so nothing but the client hello may leave the client); non-trivial = the client did not end up connected.')
 ASSUMPTIONS = [
     "non-decreasing clock and the protocol's 1/60 s send-rate cap (the property's preconditions)",
     "quick tier positions seq_sending / the peer window near the wrap (the only white-box write; absent in thorough)",
@@ -33,10 +37,10 @@ BUDGET_S = {"quick": 75, "thorough": 900}
 
 def plan(tier):
     if tier == "quick":
-        return [{"part": "hist", "n": 45, "i": i} for i in range(14)] + [{"part": "long", "datagrams": 70000, "seed": 1},
+        return [{"part": "hist", "n": 45, "i": i} for i in range(13)] + [{"part": "failed", "n": 160, "i": 0}] + [{"part": "long", "datagrams": 70000, "seed": 1},
                                                                          {"part": "fast", "steps": 105000, "dt": 9e-6, "seed": 1},
                                                                          {"part": "fast", "steps": 70000, "dt": 1.4e-5, "seed": 2, "idle_s": 1500, "spike": 2.5}]
-    return [{"part": "hist", "n": 1500, "i": i} for i in range(8)] + \
+    return [{"part": "hist", "n": 1500, "i": i} for i in range(8)] + [{"part": "failed", "n": 6000, "i": i} for i in range(2)] + \
            [{"part": "long", "datagrams": 215000, "seed": i} for i in range(8)] + \
            [{"part": "fast", "steps": 150000, "dt": dt, "seed": i} for i, dt in enumerate([1e-5, 1e-6, 1e-4, 3e-6])] + \
            [{"part": "fast", "steps": 70000, "dt": 1.4e-5, "seed": 10 + i, "idle_s": idle, "spike": 2.5} for i, idle in enumerate([1500, 4000])]
@@ -289,6 +293,71 @@ def hist_body(ctx, c):
         return {"wrapped": wrapped, "keepalive": ka, "retx": retx, "stats": stats}
 
 
+# handshakes that do not complete: an application that starts sending right after connect() (the client documentation says
+# messages can be queued at any time) while the hello exchange fails in one of the ways the network, an attacker or the
+# application itself can make it fail - and that keeps running its frame loop.  Whatever the library does with the early
+# messages, no key was ever agreed: nothing but the client hello(s) may leave the client
+failed = st.fixed_dictionaries({
+    "seed": st.integers(0, 2 ** 20),
+    "flavour": st.sampled_from(["udp", "twisted"]),
+    "mtu": st.sampled_from([1500, 1500, 512]),
+    "early": st.lists(st.tuples(st.sampled_from([0, 3, 40, 300, 1400, 2000, 5000]), st.sampled_from(scen.RETRIES)).map(list), min_size=1, max_size=3),
+    "steps_before": st.sampled_from([0, 0, 1, 3]),       # frames between connect() and the first early send
+    "fate": st.sampled_from(["client-hello-lost", "server-hello-lost", "server-hello-late", "server-hello-damaged",
+                             "disconnect-while-connecting", "disconnect-while-connecting"]),
+    "connect_timeout": st.sampled_from([None, None, 0.5]),
+    "pump": st.sampled_from([2.6, 4.0]),
+    "late_send": st.booleans(),                            # one more send() after the attempt has failed
+})
+
+
+def failed_body(ctx, c):
+    with W.World(seed=c["seed"], flavour=c["flavour"], mtu=c["mtu"]) as w:
+        ch = w.add_client()
+        fate = c["fate"]
+
+        def policy(em):
+            h = W.parse_header(em.data)
+            if h is None:
+                return [0.002]
+            if fate == "client-hello-lost" and em.to_server and h.type == W.T_CLIENT_HELLO:
+                return []
+            if not em.to_server and h.type == W.T_SERVER_HELLO:
+                if fate == "server-hello-lost":
+                    return []
+                if fate == "server-hello-late":
+                    return [2.3]
+                if fate == "server-hello-damaged":
+                    d = bytearray(em.data)
+                    d[len(d) - 12] ^= 0x20               # inside the signature; CRC fixed up so that it reaches verification
+                    body = bytes(d[:-4])
+                    w.net.push(em.t + 0.002, em.dst, em.src, body + struct.pack(">L", zlib.crc32(body) & 0xFFFFFFFF))
+                    return []
+            return [0.002]
+        w.net.policy = policy
+        if c.get("connect_timeout"):
+            ch.udp.setConnectionTimeout(c["connect_timeout"])
+        ch.connect()
+        for _ in range(c["steps_before"]):
+            w.step(0.017)
+        for k, (n_e, retry_e) in enumerate(c["early"]):
+            ch.send(W.payload_for(710000 + k, n_e), retry=retry_e, callback=False)
+            w.step(0.017)
+        if fate == "disconnect-while-connecting":
+            try:
+                ch.udp.disconnect()
+            except Exception:  # noqa - the application carries on whatever disconnect() thinks of the moment
+                ctx.label("failed-handshake:disconnect-raised")
+        w.run(c["pump"], 0.017)
+        if c.get("late_send") and ch.udp.conn is not None:
+            ch.send(W.payload_for(710009, 60), retry=1, callback=False)
+            w.run(0.5, 0.017)
+        established = ch.connected()
+        stats = judge(ctx, w, {ch.laddr: 1})
+        ctx.label("failed-handshake:%s%s" % (fate, ":connected-anyway" if established else ""))
+        return {"stats": stats, "established": established}
+
+
 def long_body(ctx, spec):
     """a genuine long session: one small message per tick in both directions until both counters passed `datagrams`"""
     n = spec["datagrams"]
@@ -360,6 +429,20 @@ def run_shard(spec, ctx):
         ctx.nt(("fast", spec["seed"], spec["dt"]))
         ctx.sample({"part": "fast", "update_calls": spec["steps"], "clock_step_s": spec["dt"], "datagrams_emitted": r["datagrams"], "virtual_seconds": round(r["virtual_s"], 3)})
         return
+    if spec["part"] == "failed":
+        @ctx.given(spec["n"], failed, salt="failed/%s" % spec["i"])
+        def test_failed(c):
+            if ctx.out_of_time():
+                return
+            ctx.case({"part": "failed", "c": c})
+            r = failed_body(ctx, c)
+            ctx.extra["datagrams_judged"] = ctx.extra.get("datagrams_judged", 0) + r["stats"]["datagrams"]
+            if not r["established"]:
+                ctx.nt(("failed", c["fate"], c["seed"], tuple(map(tuple, c["early"])), c["steps_before"]))
+            if ctx.evaluations % 40 == 1:
+                ctx.sample({"part": "failed", "fate": c["fate"], "early": c["early"], "mtu": c["mtu"]})
+        test_failed()
+        return
     if spec["part"] == "hist":
         @ctx.given(spec["n"], histories, salt=spec["i"])
         def test(c):
@@ -391,7 +474,9 @@ def run_shard(spec, ctx):
 
 def replay_case(case, ctx):
     ctx.case(case)
-    if case["part"] == "hist":
+    if case["part"] == "failed":
+        failed_body(ctx, case["c"])
+    elif case["part"] == "hist":
         hist_body(ctx, case["c"])
     elif case["part"] == "fast":
         fast_body(ctx, case["spec"])
